@@ -246,7 +246,7 @@ func ZZH9cHistory() {
 		case 1:
 			sl, sc := sym.Int("srcline"), sym.Int("srccol")
 			sym.Assume(sym.And(zzRange(sl, 0, 1<<30), zzRange(sc, 0, 1<<30)))
-			name := sym.String("name", 1)
+			name := sym.String("name", sym.Choose("namelen", 2)) // empty names included
 			m.AddNamedMapping(sl, sc, name)
 			idx := -1
 			for j, nm := range names {
